@@ -175,7 +175,14 @@ def r2_line_coordinates(ctx):
         tag = "%s,%s" % ("spacing" if by_spacing else "size", "pixel" if pix else "node")
         lins = [e.data[0] for e in p.events if e.kind == "call" and callee(e.data[0]) == "numpy.linspace"]
         if len(lins) != 1:
-            ctx.add("R2", "%s|linspace|%s" % (qn, tag), "UNDECIDED", "expected one linspace call", fn=qn)
+            ar = [e.data[0] for e in p.events if e.kind == "call" and callee(e.data[0]) == "numpy.arange" and len(e.data[0][2]) >= 3 and not is_const(e.data[0][2][2])]
+            if ar and any(x == ar[0] for x in walk(p.value)):
+                # the number of nodes must be the computed size; np.arange with a floating-point step derives it from ceil((stop - start) / step),
+                # which numpy documents as unreliable (one node more or less after round-off)
+                ctx.add("R2", "%s|linspace|%s" % (qn, tag), "VIOLATED", "the nodes are generated by %s: with a non-integer step the number of nodes depends on round-off "
+                        "(np.linspace with the computed size is what fixes it)" % show(ar[0])[:70], fn=qn)
+            else:
+                ctx.add("R2", "%s|linspace|%s" % (qn, tag), "UNDECIDED", "expected one linspace call", fn=qn)
             continue
         ln = lins[0]
         a, b_, n = (Q.arg(ctx, ln, x) for x in ("start", "stop", "num"))
